@@ -195,6 +195,42 @@ pub fn run(r: &mut Runner) {
             }
         });
     }
+    // ---- validity at every exponent: is_valid / no_overlap / try_from and the entry points that consult them, with the
+    // low word at the half-ulp and quarter-ulp thresholds, their neighbours, and the smallest subnormals
+    {
+        let es: Vec<i32> = (-1022..=1023).collect();
+        let frs: Vec<u64> = vec![0, 1, 2, (1u64 << 52) - 1, (1u64 << 52) - 2, 1u64 << 51, (1u64 << 51) + 1, 0x5_5555_5555_5554];
+        let vops = [Op::signum, Op::abs, Op::neg, Op::min, Op::max, Op::sin, Op::atan];
+        r.notes.push(format!("validity sweep: all 2046 normal exponents x {} fractions x 2 signs x low words at +-(1/2, 1/4) ulp, their f64 neighbours, +-2^-1074, +-2^-1073, 0: is_valid / no_overlap / try_from / sign queries and {:?}", frs.len(), vops.iter().map(|o| o.name()).collect::<Vec<_>>()));
+        r.par("validity at every exponent", es.len(), (es.len() * frs.len() * 2 * 22) as u64, |c, l| {
+            let e = es[c];
+            let mut i = 0u64;
+            for &f in &frs {
+                for s in [false, true] {
+                    let h = mk_f64(s, e, f).unwrap();
+                    let mut los: Vec<f64> = vec![0.0, 5e-324, -5e-324, 1e-323, -1e-323];
+                    for te in [e - 53, e - 54] {
+                        if te >= -1074 {
+                            let t = tfref::big::pow2_f64(te);
+                            for k in -1..=1 {
+                                let b = crate::util::step(t, k);
+                                los.push(b);
+                                los.push(-b);
+                            }
+                        }
+                    }
+                    for lo in los {
+                        rec.record(l, (11u64 << 52) + ((c as u64) << 20) + i, judge_ext(13, [h, lo], [1.0, 0.0]));
+                        i += 1;
+                        for &op in vops.iter() {
+                            rec.record(l, (11u64 << 52) + ((c as u64) << 20) + i, judge(op, [h, lo], [0.0, 0.0]));
+                            i += 1;
+                        }
+                    }
+                }
+            }
+        });
+    }
     // ---- every exponent of one factor (constructors and operators that reach fma)
     let mut fr_a = run_bounded(52, 2);
     fr_a.extend(gen_fracs(2));
